@@ -275,7 +275,8 @@ func c19Run(c *mon.Ctx, idx int) {
 		c.Count("unparsed")
 		return
 	}
-	indents := []string{"", " ", "\t", "ab", "   ", "  "}
+	indents := []string{"", " ", "\t", "ab", "   ", "  ", "a", "abc", "\t. ", "%", "%s", "%%", "%-4d", "50% ", "\\", "\n", "é", "  | "}
+	r.Shuffle(len(indents), func(i, j int) { indents[i], indents[j] = indents[j], indents[i] })
 	for _, indent := range indents {
 		for level := 0; level <= 3; level++ {
 			if r.Intn(3) != 0 && !(indent == "  " && level == 0) {
@@ -323,7 +324,7 @@ func c19Diff(got, want string) string {
 	g, w := strings.Split(got, "\n"), strings.Split(want, "\n")
 	for i := 0; i < len(g) && i < len(w); i++ {
 		if g[i] != w[i] {
-			gt, wt := strings.TrimLeft(g[i], " \tab"), strings.TrimLeft(w[i], " \tab")
+			gt, wt := strings.TrimLeft(g[i], " \tabc.%sd-450\\é|"), strings.TrimLeft(w[i], " \tabc.%sd-450\\é|")
 			if gt == wt {
 				return "first-diff=indentation"
 			}
@@ -406,7 +407,7 @@ func init() {
 	})
 	mon.Register(&mon.Prop{
 		ID: "C19", Level: "exploration",
-		Rule:        "seeded random expression trees (depth<=5) are parsed by the real parser; the resulting tree is dumped with ExpressionDump under indent strings {\"\", \" \", \"\\t\", \"ab\", \"   \", \"  \"} x levels 0..3 (random subset per tree, twice each) and compared byte for byte with an independent reference renderer of the documented format; Selector.String of every selector is compared with the joined path; non-trivial = tree with more than one node; distinct by expression text",
+		Rule:        "seeded random expression trees (depth<=5) are parsed by the real parser; the resulting tree is dumped with ExpressionDump under 18 indent strings (spaces, tab, multi-character, prefixes of one another, strings containing % verbs, backslash, newline, non-ASCII; visited in random order so that earlier dumps differ from later ones) x levels 0..3 (random subset per tree, twice each) and compared byte for byte with an independent reference renderer of the documented format; Selector.String of every selector is compared with the joined path; non-trivial = tree with more than one node; distinct by expression text",
 		Assumptions: []string{"the documented format is the one pinned by grammar/ast_test.go and the String methods' doc; the reference renderer (internal/refparse.Dump) was written from it"},
 		NumCases:    func(tier string) int { return tierN(tier, 12000, 500000) },
 		Run:         c19Run,
